@@ -42,5 +42,21 @@ Theorem c12_quake_unit : forall port v, one_receive (get_data_impl port v).
 Proof. exact quake_one_receive. Qed.
 Print Assumptions c12_quake_unit.
 
+(* a Valve server that answers every request with a challenge and the challenged request with nothing: one attempt is
+   request, challenge, challenged request, silence - two receives, one of them waiting for the read timeout -, and with
+   r retries the unit makes exactly r + 1 such attempts (2 (r + 1) receives), fails with a timeout-class error and
+   leaves the rest of the script alone: the wait is (r + 1) x read timeout, not (r + 1)^2 *)
+From GD Require Import Model.Valve Proofs.ValveChallengeSilent.
+Theorem c12_valve_challenged_then_silent : forall bz port retries e protocol kind (cs : list (N * N * N * N)) (u : list udp_event) t sn cur tr,
+  length cs = S (N.to_nat retries) ->
+  exists err sn' tr',
+    get_request_data bz port retries e protocol kind
+      (mknet (flat_map (fun c => let '(c1, c2, c3, c4) := c in [Datagram [255; 255; 255; 255; 65; c1; c2; c3; c4]; Timeout]) cs ++ u) t [] sn cur tr)
+    = (Err err, mknet u t [] sn' cur tr')
+    /\ timeout_class err = true
+    /\ recvs (mknet u t [] sn' cur tr') = (recvs (mknet u t [] sn cur tr) + 2 * (N.to_nat retries + 1))%nat.
+Proof. exact valve_unit_challenged_then_silent. Qed.
+Print Assumptions c12_valve_challenged_then_silent.
+
 Example c12_ex : silent (net_init [] [] []) /\ recvs (net_init [] [] []) = 0%nat.
 Proof. repeat split. Qed.
